@@ -9,7 +9,7 @@ CMP = {"<": "CLt", "<=": "CLe", ">": "CGt", ">=": "CGe", "==": "CEq", "!=": "CNe
 ITY = {"i16": "I16", "i32": "I32", "i64": "I64", "u16": "U16", "u32": "U32"}
 
 
-DIMPAT = r"(?:self\.|grammar\.|matrix\.|cm\.)?(?:conn_matrix\(\)\.)?(?:num_%s\(\)|max_%s)"
+DIMPAT = r"(?:self\.|grammar\.|matrix\.|cm\.)?(?:conn_matrix\(\)\.)?(?:num_%s(?:\(\))?|max_%s)"
 
 
 def rhs_term(rhs, where, lets=None):
